@@ -169,7 +169,21 @@ func execute(cs Case, wantC06, wantC07 bool) runOut {
 	}
 	defer w.done()
 	rm := modelOf(remotes[cs.Remote]) // what the remote must look like
-	ov := rm.Clone()                  // remote + pending successful operations
+	// every content the remote has held per path (initially and after each Commit): what a read that
+	// falls through to the remote can have seen
+	everRemote := map[string]map[string]bool{}
+	noteRemote := func(flat map[string]string) {
+		for p, v := range flat {
+			if strings.HasPrefix(v, "file:") {
+				if everRemote[p] == nil {
+					everRemote[p] = map[string]bool{}
+				}
+				everRemote[p][v] = true
+			}
+		}
+	}
+	noteRemote(rm.Flat())
+	ov := rm.Clone() // remote + pending successful operations
 	dirty := false
 	hist := append(append([]treefs.Op{}, cs.History...), treefs.Op{Kind: "Commit"}, treefs.Op{Kind: "Commit"})
 	nCommit := 0
@@ -232,11 +246,12 @@ func execute(cs Case, wantC06, wantC07 bool) runOut {
 					} else if final && nCommit == countCommits(cs.History)+2 {
 						phase = "after-second-commit"
 					}
-					kind, why := classifyDiff(rm.Flat(), got, cs.History[:min(i, len(cs.History))], remotes[cs.Remote])
+					kind, why := classifyDiff(rm.Flat(), got, cs.History[:min(i, len(cs.History))], remotes[cs.Remote], everRemote)
 					add("C06", phase+"/"+kind, "after a successful Commit the remote equals the initial tree with the same successful operations applied", fmt.Sprintf("%s; remote vs expected: %s %s", why, fsx.DiffFlat(rm.Flat(), got), strings.Join(probs, ";")))
 					return out
 				}
 			}
+			noteRemote(rm.Flat())
 			continue
 		}
 		// a cache operation
@@ -626,7 +641,7 @@ func hasDup(l []string) bool {
 // classifyDiff gives a narrow name to the first difference between the expected and the
 // actual remote tree: which path kind differs and which operation of the history last
 // addressed that path.
-func classifyDiff(want, got map[string]string, hist []treefs.Op, r0 map[string]string) (string, string) {
+func classifyDiff(want, got map[string]string, hist []treefs.Op, r0 map[string]string, everRemote map[string]map[string]bool) (string, string) {
 	var paths []string
 	for p := range want {
 		if got[p] != want[p] {
@@ -690,10 +705,24 @@ func classifyDiff(want, got map[string]string, hist []treefs.Op, r0 map[string]s
 		return "remove-of-remote-directory-not-committed", why
 	}
 	removed := map[string]bool{}
+	// staleOf maps a path to the remote path whose (removed, but still readable) bytes a wrongly
+	// accepted copy would have put there: removed paths map to themselves, destinations of such
+	// copies to the copy's source, transitively
+	staleRoot := map[string]string{}
+	staleOf := func(path string) (string, bool) {
+		best, bestLen := "", -1
+		for root, org := range staleRoot {
+			if under(path, root) && len(root) > bestLen {
+				best, bestLen = org+strings.TrimPrefix(path, root), len(root)
+			}
+		}
+		return best, bestLen >= 0
+	}
 	for _, o := range hist {
 		switch o.Kind {
 		case "Remove", "RemoveAll":
 			removed[o.P] = true
+			staleRoot[o.P] = o.P
 		case "CopyFile", "CopyDirectory", "Copy":
 			srcRemoved := false
 			for r := range removed {
@@ -704,6 +733,9 @@ func classifyDiff(want, got map[string]string, hist []treefs.Op, r0 map[string]s
 			if srcRemoved {
 				// what such a copy created is itself a source the overlay never had
 				removed[o.Q] = true
+				if org, ok := staleOf(o.P); ok {
+					staleRoot[o.Q] = org
+				}
 			}
 			if how == "unexpected-on-remote" && srcRemoved && (under(p, o.Q) || under(o.Q, p)) {
 				return "copy-from-a-removed-remote-source-was-accepted", why
@@ -711,9 +743,10 @@ func classifyDiff(want, got map[string]string, hist []treefs.Op, r0 map[string]s
 			if how == "content-differs" && srcRemoved && under(p, o.Q) {
 				// the same root cause seen on a destination that already existed: the accepted copy
 				// overwrote it with the REMOTE's bytes of the removed source (and only then)
-				srcPath := o.P + strings.TrimPrefix(p, o.Q)
-				if stale, ok := r0[srcPath]; ok && got[p] == "file:"+stale {
-					return "copy-from-a-removed-remote-source-was-accepted", why
+				if org, ok := staleOf(p); ok {
+					if everRemote[org][got[p]] {
+						return "copy-from-a-removed-remote-source-was-accepted", why
+					}
 				}
 			}
 			if how == "missing-on-remote" && under(p, o.Q) && o.Kind != "CopyFile" {
